@@ -385,7 +385,33 @@ def copy_tree(tree):
     return [[t, copy_tree(k)] for t, k in tree]
 
 
+def gen_permuted_pair(rng, special):
+    """old and new hold exactly the same raw lines, but one child line sits under a different parent
+    (same indentation): a diff that looks only at the set of lines sees no change"""
+    for _ in range(20):
+        old = gen_tree(rng, 0, special)
+        parents = [nd for nd in old if nd[1]]
+        if len(old) >= 2 and parents:
+            break
+    else:
+        return None
+    new = copy_tree(old)
+    src = rng.choice([nd for nd in new if nd[1]])
+    dst = rng.choice([nd for nd in new if nd is not src])
+    kid = src[1].pop(rng.randrange(len(src[1])))
+    dst[1].insert(rng.randint(0, len(dst[1])), kid)
+    st = rng.getstate()
+    ol = to_lines(rng, old, noise=False)
+    rng.setstate(st)
+    nl = to_lines(rng, new, noise=False)
+    return ol, nl
+
+
 def gen_pair(rng, special):
+    if rng.random() < 0.08:
+        pair = gen_permuted_pair(rng, special)
+        if pair is not None:
+            return pair
     r = rng.random()
     old = gen_tree(rng, 0, special)
     if r < 0.07:
